@@ -163,6 +163,32 @@ def run(fx, tier):
                     key='C10:R-FLOW:%s-copy' % f.cls, where=f.file)
     if n_copy == 0:
         raise AnalysisBroken('mqtt_ctx copy constructor not found')
+    # ... and the broker list: clone_endpoints → clone_servers → _servers = other._servers
+    n_clone = 0
+    for f in fx.fns:
+        if f.lam or f.n not in ('clone_endpoints', 'clone_servers') or f.cls not in ('autoconnect_stream', 'endpoints'):
+            continue
+        n_clone += 1
+        p0 = f.params[0]['d'] if f.params else None
+        ok = False
+        if f.n == 'clone_endpoints':
+            for _, _, _, c in f.calls():
+                if callee_name(c) == 'clone_servers' and c.get('args'):
+                    a = strip(c['args'][0])
+                    ok = isinstance(a, dict) and a.get('k') == 'mem' and a.get('n') == '_endpoints' and isinstance(strip(a.get('b')), dict) \
+                        and strip(a['b']).get('d') == p0 and 'obj' in c and is_member_of_this(c['obj'], '_endpoints')
+        else:
+            for b_, i_, l_, x in f.elements():
+                x = f.resolve({'k': 'elem', 'b': b_, 'i': i_})
+                if isinstance(x, dict) and x.get('k') == 'call' and x.get('op') == '=' and len(x.get('args', [])) == 2:
+                    l0, r0 = strip(x['args'][0]), strip(x['args'][1])
+                    if is_member_of_this(l0, '_servers') and isinstance(r0, dict) and r0.get('k') == 'mem' and r0.get('n') == '_servers' \
+                            and isinstance(strip(r0.get('b')), dict) and strip(r0['b']).get('d') == p0:
+                        ok = True
+        v.check(ok, 'R-FLOW', '%s::%s%s [%s]' % (f.cls, f.n, f.inst()[:20], f.tu), 'the configured broker list is copied from the other object',
+                key='C10:R-FLOW:%s' % f.n, where=f.file)
+    if n_clone < 2:
+        raise AnalysisBroken('clone_endpoints / clone_servers not found')
 
     # ------------------------------------------------------------------ R-CGRAPH
     by_inst = {}
